@@ -125,6 +125,53 @@ def build(ctx):
             ctx.prop('precedence/p%d/style_edition>version>edition' % i, o.state.pc, z3.Or(z3.Not(want_some), got != want), mvp, rp)
     eng.stubs = [x for x in eng.stubs if 'default' not in x[2]]
 
+    # ------------------------------------------------------------------ 2b. the command line beats the file when the base defaults are chosen
+    tpc = eng.find('to_parsed_config', self_ty='PartialConfig', file='src/config/mod.rs')
+    eng.lenient = True
+    eng.inline_only = [re.compile(r'to_parsed_config')]
+
+    def dps_stub(eng_, st_, args, ci):
+        st_.trace.append(('dps', args[0], args[1], args[2]))
+        return Opaque('Config', 'dps')
+    eng.stub(r'Config::default_for_possible_style_edition$', dps_stub, 'Config::default_for_possible_style_edition(se, ed, ver): arguments observed (decided in part 2)')
+    eng.stub(r'fill_from_parsed_config$', lambda e, s_, a, c: a[0], 'fill_from_parsed_config: not part of this step')
+    st = State()
+    pc_fields = [n for n, _ in eng.src.struct_fields('PartialConfig', 'src/config/mod.rs')] if eng.src.struct_fields('PartialConfig', 'src/config/mod.rs') else None
+    fn_t = eng.get_fn(tpc)
+    pcobj = Opaque('PartialConfig', 'file')
+    cli = [eng.fresh_of_type(st, ty, nm) for nm, ty in (('cli_se', 'Option<StyleEdition>'), ('cli_ed', 'Option<Edition>'), ('cli_ver', 'Option<Version>'))]
+    dirref = eng.fresh_of_type(st, fn_t.params[4][1], 'dir')
+    outs = ctx.check_outcomes(eng.run(tpc, [pcobj, cli[0], cli[1], cli[2], dirref], st), 'to_parsed_config')
+    for i, o in enumerate(outs):
+        if o.kind != 'ret':
+            ctx.prop('cli-over-file/p%d/no-panic' % i, o.state.pc, z3.BoolVal(True), [], rp, twin=False)
+            continue
+        tr = [t for t in o.state.trace if t[0] == 'dps']
+        if len(tr) != 1:
+            ctx.prop('cli-over-file/p%d/base-defaults-chosen-once' % i, o.state.pc, z3.BoolVal(True), [], rp, twin=False)
+            continue
+        # the file's values: the lazily materialised Option fields of the PartialConfig object that the function read
+        filev = {}
+        for (key, v) in o.state.notes.items():
+            if isinstance(key, tuple) and len(key) == 3 and key[0] == 'lazy' and key[1] == pcobj.ident and isinstance(v, Enum) and v.name == 'Option':
+                inner = v.payloads.get(1)
+                nm = inner.items[0].name if inner is not None and isinstance(inner.items[0], Enum) else None
+                if nm in ('StyleEdition', 'Edition', 'Version'):
+                    filev[nm] = v
+        for j, nm in enumerate(('StyleEdition', 'Edition', 'Version')):
+            got, c, f = tr[0][1 + j], cli[j], filev.get(nm)
+            if f is None or not isinstance(got, Enum):
+                ctx.prop('cli-over-file/p%d/%s/file-value-consulted' % (i, nm), o.state.pc, z3.BoolVal(True), [], rp, twin=False)
+                continue
+            gd, cd, fd = got.discr, c.discr, f.discr
+            gp, cp, fp = (x.payloads[1].items[0].discr for x in (got, c, f))
+            want_d = z3.If(cd == 1, z3.BitVecVal(1, 64), fd)
+            want_p = z3.If(cd == 1, cp, fp)
+            ctx.prop('cli-over-file/p%d/%s/command-line-value-wins-else-the-file' % (i, nm), o.state.pc, z3.Or(gd != want_d, z3.And(want_d == 1, gp != want_p)), [cd, cp, fd, fp, gd, gp], rp)
+    eng.stubs = [x for x in eng.stubs if 'part 2' not in x[2] and 'fill_from' not in x[2]]
+    eng.lenient = False
+    eng.inline_only = None
+
     # ------------------------------------------------------------------ 3. deprecated aliases
     ig = eng.enum_variants('ImportGranularity')
     for setter, old, new, kind in (('set_merge_imports', 'merge_imports', 'imports_granularity', 'merge'),
@@ -279,6 +326,10 @@ def print_config(args, files=None, cwd=None, env_home=None):
     return vals, r
 
 
+def cls(x):
+    return x if x in ('2024', '2027') else 'pre-2024'
+
+
 def cli_findings():
     """facts about the real binary that contradict C14's clauses; keyed so that known findings can be told apart"""
     d = os.path.join(BUILD, 'scratch', 'c14-%d' % os.getpid())
@@ -296,7 +347,8 @@ def cli_findings():
                     found.setdefault('other', []).append('max_width=%d gives %s=%s (documented %d)' % (mw, w, vals[w], DOC_DEFAULT[w]))
     vals, r = print_config(['--config', 'use_small_heuristics=Off', '--print-config', 'current', '.'], cwd=d, env_home=d)
     if r.returncode != 0 or not vals:
-        for w in WIDTHS:
+        # the printer fails on the four widths that Off documents as unbounded; the other four are 0
+        for w in ('fn_call_width', 'attr_fn_like_width', 'array_width', 'chain_width'):
             found.setdefault('C14/heuristics/Off/%s' % w, []).append('use_small_heuristics=Off: --print-config current fails: %s' % r.stderr.strip()[:120])
     else:
         for w in WIDTHS:
@@ -334,8 +386,18 @@ def cli_findings():
     for args, want in ((['--style-edition', '2024', '--edition', '2015'], '2024'), (['--edition', '2018'], '2018'), (['--config', 'version=Two', '--edition', '2015'], '2024'),
                        (['--config', 'version=One,style_edition=2024'], '2024')):
         vals, r = print_config(args + ['--print-config', 'current', '.'], cwd=d, env_home=d)
-        if vals.get('style_edition') != want:
+        # the style_edition option's own default is 2024 for 2024 and 2015 for every earlier edition (options.rs: the editions
+        # 2015/2018/2021 share all defaults, C09), so an unset style_edition under --edition 2018 prints as 2015: compare classes
+        if cls(vals.get('style_edition')) != cls(want):
             found.setdefault('other', []).append('%s gives style_edition=%s, expected %s' % (' '.join(args), vals.get('style_edition'), want))
+    # a file that sets edition, a command line that sets another one across the 2021/2024 boundary, nothing else set
+    for file_ed, cli_args, want in (('2021', ['--edition', '2024'], '2024'), ('2024', ['--edition', '2018'], '2015'), ('2021', ['--config', 'edition=2024'], '2024'),
+                                    ('2024', [], '2024'), ('2021', ['--style-edition', '2024'], '2024')):
+        open(os.path.join(d, 'rustfmt.toml'), 'w').write('edition = "%s"\n' % file_ed)
+        vals, r = print_config(cli_args + ['--print-config', 'current', '.'], cwd=d, env_home=d)
+        if cls(vals.get('style_edition')) != cls(want):
+            found.setdefault('other', []).append('file edition=%s with %s gives style_edition=%s, expected %s' % (file_ed, ' '.join(cli_args) or 'no flag', vals.get('style_edition'), want))
+    os.remove(os.path.join(d, 'rustfmt.toml'))
     shutil.rmtree(d, ignore_errors=True)
     import c15
     pf = c15.cli_runs()
